@@ -253,7 +253,7 @@ class Tifa(TifaCore, ast.NodeVisitor):
                     self._issue(incompatible_types(self.locate(), operation, original_type, target_type, report=self.report))
             else:
                 new_target_type = target_type
-            original_type.set_index(original_indexing_type, new_target_type)
+            original_value_type.set_index(original_indexing_type, new_target_type)
             if origin:
                 origin_type = self.load_variable(origin)
                 self.store_variable(origin, origin_type.type)
